@@ -1,5 +1,7 @@
 import Bridge.Serdes
+import Bridge.CodecSer
 import Props.C06BitIO
+import Props.C06WireIO
 /-!
 # C06 over the bit-level writer generated from `_serdes.py`
 
@@ -89,3 +91,169 @@ theorem C06.gen_writer_history (ops : List (ℕ × ℕ)) :
 example : (do let w ← Gen.BitWriter.init
               [(5, 3), (0xABCD, 16)].foldlM (fun w (op : ℕ × ℕ) => Gen.BitWriter.write_bits w op.1 op.2) w)
     = .ok ⟨[0x6D, 0x5E, 0x05], 19⟩ := by decide +kernel
+
+/-!
+# C06 over the SERIALIZER generated from `_serdes.py`
+
+`Gen/Codec.lean` also contains the translation of `serialize`, `_serialize_primitive`, `_serialize_array`, `_serialize_element`,
+`_serialize_composite`, `_serialize_field_value` and `_default_value` (tools/py2lean_codec.py: Python values inspected dynamically
+-- `isinstance`, `len`, iteration, dict access --, Python ints as `Int` with `&` on two's complement, the writer state threaded
+explicitly incl. the temporary writer of delimited types, the union search loop with `break`, `_DEFAULT_SENTINEL`).  The float
+conversion inside `_serialize_primitive` (`float()`, saturation, `struct.pack` with its OverflowError handling) is outside the
+translated fragment and appears as an uninterpreted function (`Py.opaqueBytes`); `_normalize_relaxed_value` is an uninterpreted
+external function (`relaxed=True` is not covered).
+
+`Bridge/CodecSer.lean` proves, by recursion over the schema object graph, that on every well-formed schema object WITHOUT FLOAT
+TYPES and with pairwise distinct field names (`serOk`), every writer state whose position is not behind its buffer (`WInv`), and every
+`plain` Python value (no float objects, `str` carrying valid UTF-8), the generated functions write exactly what the model writes
+(`Wire.coerce` followed by `WireIO.encW`) or raise the exception of the model's error class.  The theorems here restate C06 over the
+generated code, and combine it with the generated deserializer (`Props/C07Gen.lean`) to the round trip.
+-/
+open Py in
+/-- **Saturation, generated code**: a saturated unsigned field given the int `i` writes `min(max(i, 0), 2^n - 1)`. -/
+theorem C06.gen_sat_unsigned (w : Gen.WriterS) (hw : WInv w) (n : ℕ) (i : ℤ) :
+    ∃ g', Gen.Codec.serialize_primitive w (.unsigned n .saturated) (.int i) = .ok g' ∧
+      toW g' = writeBits (toW w) (max 0 (min ((2 : ℤ) ^ n - 1) i)).toNat n ∧ WInv g' := by
+  have h := ser_unsigned w hw n .saturated (.int i) rfl
+  simp only [modelSer, inpOf, Wire.coerce, Wire.Inp.num?, castOf] at h
+  obtain ⟨g', h1, h2, h3⟩ := h
+  exact ⟨g', h1, by rw [h2]; simp only [WireIO.encW]; rw [toTwos_castU]; simp only [Wire.castU, Wire.clamp], h3⟩
+
+open Py in
+/-- **Truncation, generated code**: a truncated unsigned field given the int `i` writes `i mod 2^n` (also for negative `i`). -/
+theorem C06.gen_trunc_unsigned (w : Gen.WriterS) (hw : WInv w) (n : ℕ) (i : ℤ) :
+    ∃ g', Gen.Codec.serialize_primitive w (.unsigned n .truncated) (.int i) = .ok g' ∧
+      toW g' = writeBits (toW w) (i % (2 : ℤ) ^ n).toNat n ∧ WInv g' := by
+  have h := ser_unsigned w hw n .truncated (.int i) rfl
+  simp only [modelSer, inpOf, Wire.coerce, Wire.Inp.num?, castOf] at h
+  obtain ⟨g', h1, h2, h3⟩ := h
+  exact ⟨g', h1, by rw [h2]; simp only [WireIO.encW]; rw [toTwos_castU]; simp only [Wire.castU], h3⟩
+
+open Py in
+/-- **Saturation of signed fields, generated code**: the two's complement pattern of `min(max(i, -2^(n-1)), 2^(n-1) - 1)`. -/
+theorem C06.gen_sat_signed (w : Gen.WriterS) (hw : WInv w) (n : ℕ) (i : ℤ) :
+    ∃ g', Gen.Codec.serialize_primitive w (.signed n .saturated) (.int i) = .ok g' ∧
+      toW g' = writeBits (toW w) ((max (-(2 : ℤ) ^ (n - 1)) (min ((2 : ℤ) ^ (n - 1) - 1) i)) % (2 : ℤ) ^ n).toNat n ∧ WInv g' := by
+  have h := ser_signed w hw n (.int i) rfl
+  simp only [modelSer, inpOf, Wire.coerce, Wire.Inp.num?] at h
+  obtain ⟨g', h1, h2, h3⟩ := h
+  exact ⟨g', h1, by rw [h2]; simp only [WireIO.encW, Wire.toTwos, Wire.castS, Wire.clamp], h3⟩
+
+/-- evaluated: 300 into a saturated uint8 gives 255, 41 into a truncated uint5 gives 9, -9 into int3 gives -4 = 0b100 -/
+example : (do let w ← Gen.Codec.serialize_primitive ⟨[], 0⟩ (.unsigned 8 .saturated) (.int 300)
+              let w ← Gen.Codec.serialize_primitive w (.unsigned 5 .truncated) (.int 41)
+              Gen.Codec.serialize_primitive w (.signed 3 .saturated) (.int (-9))) = .ok ⟨[255, 0x89], 16⟩ := by
+  decide +kernel
+
+open Py in
+/-- **Defaults, generated code**: `_default_value` returns `defaultOf` -- False / 0 / 0.0 / empty string, bytes, list / a list of
+    element defaults / a dict of all field defaults / the first variant's default. -/
+theorem C06.gen_default_value (s : Obj) (hs : okT s = true) (hw : (tyOf s).wf = true) (hd : depth s + 1 ≤ Py.recursionLimit) :
+    Gen.Codec.default_value s = .ok (defaultOf s) := Bridge.gen_default_value s hs hw hd
+
+theorem C06.tyOf_isComposite (s : Py.Obj) (hs : okT s = true) (hc : isCompObj s = true) : (tyOf s).isComposite = true := by
+  match s, hs, hc with
+  | .structure fs a n, _, _ => simp only [tyOf, Wire.Ty.isComposite]
+  | .union fs t a n, _, _ => simp only [tyOf, Wire.Ty.isComposite]
+  | .delimited i h x a, hs, _ =>
+    obtain ⟨_, _, _, h1 | h1⟩ := tyOf_delimited i h x a hs
+    · obtain ⟨fs, al, n, _, e2⟩ := h1; rw [e2]; rfl
+    · obtain ⟨fs, t, al, n, _, e2⟩ := h1; rw [e2]; rfl
+
+open Py in
+/-- **The generated `serialize` is the model's `serialize`** (strict mode, float-free types): the same bytes -- as bits, the
+    model's bit string -- or the exception of the model's error class (ValueError / TypeError / ArrayLengthError /
+    UnionFieldError). -/
+theorem C06.gen_serialize_is_model (s : Obj) (hs : okT s = true) (hc : isCompObj s = true) (hw : (tyOf s).wf = true)
+    (hso : serOk s = true) (hd : depth s ≤ Py.recursionLimit) (pv : Value) (hp : plain pv = true) (hdr : Bool) :
+    match Wire.serialize (tyOf s) (inpOf pv s) hdr false with
+    | .ok (_, bits) => ∃ bytes, Gen.Codec.serialize s pv hdr false = .ok bytes ∧ IsBytes bytes ∧ bytesToBits bytes = bits
+    | .error e => Gen.Codec.serialize s pv hdr false = .error (errOf e) := by
+  have h := gen_serialize s hs hc hw hso hd pv hp hdr
+  unfold Wire.serialize
+  by_cases hh : (hdr && !(tyOf s).isDelimited) = true
+  · rw [if_pos hh] at h ⊢
+    exact h
+  · rw [if_neg hh] at h ⊢
+    have hcomp := C06.tyOf_isComposite s hs hc
+    have ht' : (if hdr = true then tyOf s else (tyOf s).inner).wf = true := by
+      cases hdr
+      · exact Wire.wf_inner _ hw
+      · exact hw
+    have hc' : (if hdr = true then tyOf s else (tyOf s).inner).isComposite = true := by
+      cases hdr
+      · simpa [WireIO.isComposite_inner] using hcomp
+      · exact hcomp
+    have hco : Wire.coerce (if hdr = true then tyOf s else (tyOf s).inner) (inpOf pv s) = Wire.coerce (tyOf s) (inpOf pv s) := by
+      cases hdr
+      · exact coerce_inner _ _
+      · rfl
+    unfold modelSer at h
+    rw [hco] at h
+    simp only [Bool.false_eq_true, if_false, pure_eq_ok, ok_bind]
+    cases hcv : Wire.coerce (tyOf s) (inpOf pv s) with
+    | error e => rw [hcv] at h; exact h
+    | ok v =>
+      rw [hcv] at h
+      obtain ⟨bytes, h1, h2, h3⟩ := h
+      refine ⟨bytes, h1, h2, ?_⟩
+      rw [h3, WireIO.encW_buf _ v ht', WireIO.pad8_of_mod _ (WireIO.enc_composite_mod8 _ v hc')]
+
+open Py in
+/-- **Round trip over generated encoder + generated decoder**: whatever plain value the generated `serialize` accepts, the bytes
+    it returns -- followed by anything -- are decoded by the generated `deserialize` (same header flag) to the Python value of
+    the canonical value the input denotes (numbers saturated / truncated, omitted fields filled with defaults). -/
+theorem C06.gen_roundtrip (s : Obj) (hs : okT s = true) (hc : isCompObj s = true) (hw : (tyOf s).wf = true)
+    (hso : serOk s = true) (hd : depth s ≤ Py.recursionLimit) (pv : Value) (hp : plain pv = true) (hdr : Bool)
+    (bytes junk : List ℕ) (hj : IsBytes junk) (h : Gen.Codec.serialize s pv hdr false = .ok bytes) :
+    ∃ v, Wire.coerce (tyOf s) (inpOf pv s) = .ok v ∧ Wire.valid (tyOf s) v = true ∧
+      Gen.Codec.deserialize s (bytes ++ junk) hdr = .ok (valueOf s v) := by
+  have hm := C06.gen_serialize_is_model s hs hc hw hso hd pv hp hdr
+  cases hser : Wire.serialize (tyOf s) (inpOf pv s) hdr false with
+  | error e => rw [hser] at hm; rw [hm] at h; cases h
+  | ok p =>
+    obtain ⟨v, bits⟩ := p
+    rw [hser] at hm
+    obtain ⟨bytes', h1, h2, h3⟩ := hm
+    rw [h1] at h; cases h
+    have hco : Wire.coerce (tyOf s) (inpOf pv s) = .ok v := by
+      unfold Wire.serialize at hser
+      split at hser
+      · cases hser
+      · simp only [Bool.false_eq_true, if_false, pure_eq_ok, ok_bind] at hser
+        cases hcv : Wire.coerce (tyOf s) (inpOf pv s) with
+        | error e => rw [hcv] at hser; cases hser
+        | ok v' => rw [hcv] at hser; simp only [ok_bind, Except.ok.injEq, Prod.mk.injEq] at hser; rw [hser.1]
+    refine ⟨v, hco, Wire.coerce_valid _ _ _ hw hco, ?_⟩
+    rw [gen_deserialize s hs hc hw hd _ (isBytes_append h2 hj) hdr, C07.deserialize_bytes _ _ _ hw, bytesToBits_append, h3,
+      C06.serialize_roundtrip _ _ _ _ _ _ _ hw hser]
+    rfl
+
+/-- a float-free schema object with every kind of member (cf. `C07.exObj`) -/
+def C06.exObj : Py.Obj :=
+  .structure
+    [.field (.unsigned 8 .saturated) "a", .paddingField (.void 3),
+     .field (.varArray (.signed 3 .saturated) 5 (.unsigned 8 .truncated)) "b",
+     .field (.fixedArray (.union [.field .boolean "p", .field (.unsigned 5 .truncated) "q"] (.unsigned 8 .truncated) 8 "ns.V") 2) "w",
+     .field (.delimited (.union [.field .boolean "x", .field (.varArray .utf8 4 (.unsigned 8 .truncated)) "s",
+        .field (.varArray .byte 2 (.unsigned 8 .truncated)) "y"] (.unsigned 8 .truncated) 8 "ns.U")
+        (.unsigned 32 .truncated) 64 8) "u"] 8 "ns.S"
+
+example : okT C06.exObj = true ∧ isCompObj C06.exObj = true ∧ (tyOf C06.exObj).wf = true ∧ serOk C06.exObj = true ∧
+    depth C06.exObj ≤ Py.recursionLimit := by decide
+example : plain (.dict [("a", .int 300), ("b", .list [.int (-9), .int 2, .int 3]),
+    ("w", .list [.dict [("q", .int 41)], .dict [("p", .bool true)]]), ("u", .dict [("s", .str [65, 195, 169])])]) = true := by
+  decide
+/-- evaluated (CPython returns the same bytes for the same dict): saturation of 300 and -9, truncation of 41, a str in a delimited
+    union; omitted fields; the exceptions -/
+example : Gen.Codec.serialize C06.exObj (.dict [("a", .int 300), ("b", .list [.int (-9), .int 2, .int 3]),
+    ("w", .list [.dict [("q", .int 41)], .dict [("p", .bool true)]]), ("u", .dict [("s", .str [65, 195, 169])])]) false false
+    = .ok [255, 24, 160, 6, 1, 9, 0, 1, 5, 0, 0, 0, 1, 3, 65, 195, 169] := by decide +kernel
+example : Gen.Codec.serialize C06.exObj (.dict [("a", .int 7)]) false false = .ok [7, 0, 0, 0, 0, 0, 0, 2, 0, 0, 0, 0, 0] := by
+  decide +kernel
+example : Gen.Codec.serialize C06.exObj (.dict [("a", .int 7), ("zz", .int 1)]) false false = .error .valueError := by
+  decide +kernel
+example : Gen.Codec.serialize C06.exObj (.dict [("u", .dict [("nope", .int 1)])]) false false
+    = .error (.other "UnionFieldError") := by decide +kernel
+example : Gen.Codec.serialize C06.exObj (.dict [("b", .list [.int 1, .int 1, .int 1, .int 1, .int 1, .int 1])]) false false
+    = .error (.other "ArrayLengthError") := by decide +kernel
